@@ -79,19 +79,15 @@ def run(model, rep):
             f = IF.facts_at(c)
             ok = f is not None and any(('<try-catches:%s>' % b, True) in f for b in BROAD)
             rep.check(ok, 'C08.ERRD', ica.loc(c), src(c)[:70], 'inside a broad handler', 'candidate filter lets parser errors escape', key='C08.ERRD|filter|' + src(c.func))
-    fold = model.func('python_minifier.transforms.constant_folding.FoldConstants.visit_BinOp')
-    FF = Facts(fold.node)
-    for c in calls(fold.node):
-        if src(c.func) in ('safe_eval', 'unparse_expression', 'ast.parse', 'compare_ast', 'repr'):
-            n += 1
-            f = FF.facts_at(c)
-            ok = f is not None and any(('<try-catches:%s>' % b, True) in f for b in BROAD)
-            rep.check(ok, 'C08.ERRD', fold.loc(c), src(c)[:70], 'inside a broad handler that leaves the expression unchanged',
-                      'evaluation / printing of literal arithmetic can raise out of the folding transform', key='C08.ERRD|fold|%s|%d' % (src(c.func), n))
-    rep.floor('C08.ERRD', 9)
+    # the folding transform: run abstractly on literal arithmetic whose evaluation fails (division by zero, negative shifts, overflow): it must not raise
+    from .c07 import enum as fold_enum
+    fold_enum(model, rep, rule='C08.ERRD', only_raises=True)
+    rep.floor('C08.ERRD', 8)
 
     # ---------------- CELLS (reduced; the full tables run under C02)
-    cells = [c for c in c02.all_cells('quick') if c[1].startswith('num ') or c[1].startswith('lay nested') or c[1].startswith('pat case')]
+    PAREN_SENSITIVE = ('Tuple', 'Tuple1', 'StarTuple', 'Yield', 'YieldFrom', 'NamedExpr', 'Lambda', 'IfExp', 'GeneratorExp', 'Await', 'Starred')
+    cells = [c for c in c02.all_cells('quick') if c[1].startswith('num ') or c[1].startswith('lay nested') or c[1].startswith('pat case') or
+             (c[1].startswith('slot ') and c[1].split('<- ')[-1] in PAREN_SENSITIVE)]
     results = c02.run_cells(model, cells)
     c02.report_cells(rep, 'C08.CELLS', results, 'src/python_minifier/{module,expression,token}_printer.py', lambda l: ' '.join(l.split(' ')[:2]).rstrip(':'), 700)
 
